@@ -11,14 +11,14 @@ import (
 
 func init() {
 	register(&propDef{
-		id: "C34",
+		id:      "C34",
 		explain: "Structural necessary conditions of 'a body stream handed to a Request/Response is closed exactly once, whatever happens': (R1) each closer (closeBodyStream of Request and Response) clears the bodyStream reference on every path on which it closed the stream, including when Close reports an error - otherwise the next Reset closes it again; (R2) every other store to a bodyStream field either derives from the field's previous value (wrapping / swapping, which transfers ownership) or is dominated by a call of the object's closer (ResetBody / closeBodyStream), or happens in a read path that fills a freshly reset object; (R3) every path through the stream writers of Request and Response reaches the closer; (R4) the shared close helper invokes Close and CloseWithError at most once each. Not decided: byte equality of what was streamed, chunk encoding.",
-		run: runC34,
+		run:     runC34,
 	})
 	register(&propDef{
-		id: "C35",
+		id:      "C35",
 		explain: "Structural necessary conditions of 'temporary files of a parsed multipart form never outlive the request': (R1) a *multipart.Form produced by ReadForm / readMultipartForm is, on every path from the producing call to a return, stored into Request.multipartForm (where Reset finds it), returned to the caller, explicitly removed with RemoveAll, or the producing call reported an error; (R2) Request.multipartForm is set to nil only after RemoveAll on the non-nil branch; (R3) Request.Reset and RequestCtx.reset clear multipartForm on every path (through the remover), and every serve-loop iteration that ran a handler passes Request.Reset before the next request. Not decided: form content round trip, files moved away by user code.",
-		run: runC35,
+		run:     runC35,
 	})
 }
 
